@@ -321,6 +321,29 @@ func poolProbes(r *vf.Run, n, c int) []meas {
 		}
 		out = append(out, m)
 	}
+	// every signer first endorses and later commits (what a peer that is endorser and committer does):
+	// the signer set grows by ONE peer per two messages
+	{
+		blk := uint32(b0 + 5)
+		m := meas{Fn: "BlockPool.commitDone", Shape: "each-peer-endorses-then-commits", T: -1, K: -1}
+		for peer := 2; peer <= n && m.T < 0; peer++ {
+			for step := 0; step < 2 && m.T < 0; step++ {
+				if step == 0 {
+					vp.AddEndorse(uint32(peer), 1, blk, blockHash, false, sigOf(peer-1))
+				} else if err := vp.AddCommit(mkCommit(blk, peer)); err != nil {
+					r.Inconclusive("harness: AddCommit: " + err.Error())
+					return out
+				}
+				r.Add("probes_pool_commitDone", 1)
+				if p, _, done := vp.CommitDone(blk, uint32(c), uint32(n)); done && p == 1 {
+					m.K = peer - 1
+					m.T = peer // peers 2..peer plus the credited proposer
+					m.Wit = fmt.Sprintf("proposer=1; peers 2..%d each sent an endorse message and then a commit message without endorser sigs (declared after the %s of peer %d)", peer, []string{"endorsement", "commit"}[step], peer)
+				}
+			}
+		}
+		out = append(out, m)
+	}
 	// fallback path of commitDone: endorsement signatures only
 	for si, sh := range []struct {
 		name       string
